@@ -24,6 +24,46 @@ CLAIMED = {
          "Every position of the tag-setting rule (or none), every failing subset <=2, both policies, 1-4 rules, three salience patterns; when the tag is never set the tag-free twin is run on the same input and must agree.",
          "Bounds: <=4 rules; pool wrappers of the stop-tag variants are exercised by the pool checks.",
          "DESIGN.md §2 C14"),
+ "C01": ("bounded-exhaustive enumeration of expression TEXTS (all operator strings k<=2/3 x all bracketings x ! placements; every operator x ordered operand pair from a 79-entry kind/boundary alphabet; metadata constants) executed on the real engine against an independent precedence-climbing reference evaluator",
+         "Every expression text of the bounded grammar is compiled and evaluated by the real engine and compared (dynamic Go type, value bit-for-bit, error nil-ness, no entry on failure, no panic) with a reference parser/evaluator written from the property statement; ~85k programs quick, ~1.06M thorough, all enumerated.",
+         "Trusted: harness/ref/expr.go (self-tested on 79 golden cases each run). Not judged: short-circuit evaluation, @id for names with blanks / beyond int64. Bounds: <=3 binary operators, value alphabet of 79 atoms.",
+         "DESIGN.md §2 C01"),
+ "C03": ("bounded-exhaustive enumeration of access path x target kind x source x boundary value x {read,=,+=} and of call shapes, each executed on the real engine with fresh host objects and compared location-by-location with Go's own conversion rules",
+         "The full product of 48 access paths, 14 target kinds, literal/local/injected sources and boundary values (19k judged + 24k recorded-only programs quick; 53k + 80k thorough) runs on the real engine; the oracle deep-compares ~150 host locations before/after and the callee logs.",
+         "Judged only what the statement covers (within-class width conversion everywhere, cross-class for struct fields and pointer scalars, representable values); the rest is executed and only checked for escaping panics. Trusted: harness/ref/data.go (self-tested against math/big).",
+         "DESIGN.md §2 C03"),
+ "C06": ("stateless DFS over all interleavings (preemption bound 2/3 sequential-model methods, 1/2 goroutine-spawning methods, HB-fingerprint pruning) of 2-3 client threads issuing requests to a real GenginePool(1,2), incl. the busy-wait loop and asynchronous put goroutines; deterministic probe phase on every instance",
+         "Every schedule within the bound of overlapping and instance-reusing requests through 8 representative execute methods, plus all 24 methods x execution models in smaller scenarios; observers inside the rules check that each request sees only its own ids/keys; handed-back maps are compared again at the end; probes that inject nothing must find nothing on each instance.",
+         "A pristine compiled pool is deep-cloned per execution (HX_FRESHPOOL=1 constructs instead, as self-test). Sequentially consistent memory (racy accesses are C19's subject). Bounds: pool (1,2) [(2,3) thorough], <=4 requests.",
+         "DESIGN.md §2 C06"),
+ "C09": ("bounded-exhaustive fault grammar (83 statement faults + 9 return faults x nesting x position) x every engine model x two calls, default schedule under the controlled scheduler with modelled deadlock / step horizon; representatives under all schedules with <=1/2 preemptions; pool methods x execution models",
+         "Each faulty rule set is run in every execution model on the real code under the scheduler, which turns a panic on a gengine goroutine, a deadlock or an endless loop into a deterministic verdict; the oracle also demands the reference plan for the healthy rules and an identical second call.",
+         "Injected functions terminate; one level of unbounded loop. Default schedule for the sweep (the subject is sequential fault handling), preemption-bounded exploration for representatives.",
+         "DESIGN.md §2 C09"),
+ "C10": ("bounded-exhaustive text enumeration (all byte strings <=3 over 11 bytes, all token strings <=3/4 over 14 tokens, single-token edit neighbourhood of seed texts over a 36-token alphabet, duplicate-name texts) x 5 compile entry points x prior states, differential and state-snapshot oracle on the real builder/pool",
+         "15k texts quick (139k submissions), ~120k thorough: every entry point must return normally, agree on accept/reject, leave the concrete previous state (Kc snapshot incl. object identity; pool queries + executions) untouched on reject and equal the reference replace/merge on accept.",
+         "Same-language is judged as agreement between entry points (no grammar re-implementation). Pairs of edits are time-capped in thorough (reported).",
+         "DESIGN.md §2 C10"),
+ "C11": ("bounded-exhaustive enumeration of all 1728 triples over 12 return behaviours x all engine models x two-call histories, concurrent models under all schedules with <=1 preemption, pool methods with two sequential requests; reference = set of rules that returned in THIS call",
+         "Each case runs on the real engine under the scheduler; the result map must equal exactly the reference map (values, pointer identity), errors iff failures, and the first call's map must not change in the second call.",
+         "Strict saliences so the executed set is schedule independent. Quick samples every third single-call case (thorough: all).",
+         "DESIGN.md §2 C11"),
+ "C15": ("stateless DFS over interleavings (<=2/3 preemptions for 2 rules, <=1/2 for 3 rules) of all rule sets over {write-local, read-unassigned, read-before-write} x all engine models x two calls, plus overlapping pool requests with request-unique values",
+         "A leaked local would let an R/RW rule obtain a value or a W rule read back a foreign value in some schedule; all schedules within the bound are executed on the real code.",
+         "Each rule updates its own field of the shared injected object. Sequentially consistent memory.",
+         "DESIGN.md §2 C15"),
+ "C17": ("stateless DFS over all interleavings (preemption bound 2/3, HB-fingerprint pruning, fair yield in the busy-wait loop) of M+1 clients / M clients x 2 requests against a real GenginePool incl. asynchronous put goroutines and faulting requests; deterministic conservation phase (max requests held inside a rule)",
+         "Every schedule within the bound is executed; in-flight rule bodies are counted from the global log, every request must return with only its own failure, and after quiescence max requests must get inside a rule simultaneously (a lost instance shows as a modelled hang).",
+         "Waiting is modelled: the retry loop yields fairly, a hang is a scheduler verdict (deadlock/livelock/step horizon), never a timeout. Pool deep-cloned from a compiled template per execution.",
+         "DESIGN.md §2 C17"),
+ "C18": ("stateless DFS over all interleavings (<=2/3 preemptions for 1-2 children, <=1/2 for 3 children) of the goroutines of every conc block with 1-3 children over 11 statement kinds, incl. re-entered blocks and two concurrent rules",
+         "Each schedule runs the real ConcStatement; oracle: each child once, all ends before the next statement, next statement sees every assignment, failure => error after all children, nothing runs after the call returned.",
+         "Sequentially consistent memory (the local store's locking is checked by C19).",
+         "DESIGN.md §2 C18"),
+ "C20": ("bounded-exhaustive enumeration of fault class x enclosing statement x layout (rule position, blank/comment lines, tokens spread over lines, LF/CRLF) with generator-tracked line bookkeeping; each text compiled and the faulty rule executed on the real engine",
+         "17k texts quick / 59k thorough: every cited `line N` must be the start line of a failing construct on the path, listed fault classes must cite one, `line 0` is never accepted.",
+         "Columns and wording not judged. Self-test cross-checks the generator's line bookkeeping by an independent newline count.",
+         "DESIGN.md §2 C20"),
 }
 NA_REASON = "check not built yet in this round (design in DESIGN.md §2); will be claimed once its check passes on the pinned tree"
 def main():
